@@ -69,6 +69,8 @@ class Engine:
         ax = list(LIT_AXIOMS)
         if USED_CHAR_AXIOMS[0]:
             ax.extend(CHAR_AXIOMS)
+        if USED_SUMLEN[0]:
+            ax.extend(SUMLEN_AXIOMS)
         return ax
 
     def feasible(self, st, extra=None):
